@@ -758,6 +758,7 @@ class Plane(Generic[LTComponentT]):
     def __init__(self, bbox: Rect, gridsize: int = 50) -> None:
         self._seq: List[LTComponentT] = []  # preserve the object order.
         self._objs: Set[LTComponentT] = set()
+        self._order: Dict[LTComponentT, int] = {}  # insertion rank of each object
         self._grid: Dict[Point, List[LTComponentT]] = {}
         self.gridsize = gridsize
         (self.x0, self.y0, self.x1, self.y1) = bbox
@@ -801,6 +802,7 @@ class Plane(Generic[LTComponentT]):
             r.append(obj)
         self._seq.append(obj)
         self._objs.add(obj)
+        self._order[obj] = len(self._seq)
 
     def remove(self, obj: LTComponentT) -> None:
         """Displace an object."""
@@ -815,6 +817,7 @@ class Plane(Generic[LTComponentT]):
         """Finds objects that are in a certain area."""
         (x0, y0, x1, y1) = bbox
         done = set()
+        found = []
         for k in self._getrange(bbox):
             if k not in self._grid:
                 continue
@@ -824,7 +827,12 @@ class Plane(Generic[LTComponentT]):
                 done.add(obj)
                 if obj.x1 <= x0 or x1 <= obj.x0 or obj.y1 <= y0 or y1 <= obj.y0:
                     continue
-                yield obj
+                found.append(obj)
+        # Report the objects in the order in which they were added, not in the
+        # order in which the grid cells happen to be scanned: the latter depends
+        # on where the fixed-size grid falls, i.e. on the scale of the page.
+        found.sort(key=self._order.__getitem__)
+        return iter(found)
 
 
 ROMAN_ONES = ["i", "x", "c", "m"]
